@@ -110,6 +110,15 @@ def surviving(ctx, G, m, detail):
             h.first[k] = min(s)
     for n in G.nodes():
         h.nodes.setdefault(n, {})
+    if m.directed:
+        # the predecessor side must mirror the successor side, entry by entry
+        outs = set((u, v) for u in G.adj for v in G.adj[u])
+        ins = set((u, v) for v in G.pred for u in G.pred[v])
+        if outs != ins:
+            ctx.finding("other:consistent", "unclassified:other:consistent",
+                        dict(detail, problem="successor and predecessor tables disagree",
+                             only_out=sorted(map(repr, outs - ins))[:4], only_in=sorted(map(repr, ins - outs))[:4]))
+            ok = False
     for k, s in h.P.items():
         if k not in m.P:
             ctx.finding("other:consistent", "unclassified:other:consistent",
@@ -181,6 +190,9 @@ def enumerate_api(ctx, dn, prog, m, directed, cands, names):
                 post_audit(ctx, dn, T, m, detail)
                 break
             if name in ("clear", "clear_edges") and how == "returned" and not args and not kw:
+                post_audit(ctx, dn, T, m, detail)          # the emptied graph itself, looked at right away
+                T = rebuild(dn, prog, directed)
+                getattr(T, name)()
                 # second life: the emptied graph is refilled (unobserved) with the same history shifted in time
                 ctx.cell("second-life:" + name)
                 mm = Model(directed, True)
